@@ -409,7 +409,12 @@ fn execute(sc: &Scenario) -> RunOutcome {
                             out.count("probe.debug_commit_with_invalid_density", 1);
                         }
                         if bad > 0 && !*debug {
-                            out.violate("density-invalid", "density", format!("{}: {bad} grid points with non-finite or non-positive density after a successful solve", what(i)));
+                            // the signature names what is wrong and which kind of stage declared
+                            // convergence, so that a listed finding does not hide a different one
+                            let zeros = rho.iter().zip(p.external_potential.iter()).all(|(r, v)| r.is_finite() && (*r > 0.0 || *r == 0.0 || *v >= 49.0)) ;
+                            let stage = last.map_or("default".to_string(), |s| format!("{}{}", ["picard", "anderson", "newton"][s.algo.min(2) as usize], if s.log { "-log" } else { "-linear" }));
+                            let sig = format!("density:{}:{stage}", if zeros { "exact-zeros" } else { "negative-or-non-finite" });
+                            out.violate("density-invalid", &sig, format!("{}: {bad} grid points with non-finite or non-positive density after a successful solve (chain {chain:?})", what(i)));
                         }
                         if *debug {
                             out.count("fault.partial_commit_debug", 1);
@@ -487,7 +492,9 @@ fn execute(sc: &Scenario) -> RunOutcome {
                             }
                             // S4: path independence of position-independent observables
                             let tight = last.map_or(true, |s| s.tol_exp >= 9.0);
-                            if tight && spec_kind == 0 {
+                            // a profile with invalid densities has been reported above; its
+                            // observables are not compared on top of that
+                            if tight && spec_kind == 0 && bad == 0 {
                                 let intact = match &obj {
                                     Obj::Interface(ifc) => interface_intact(ifc),
                                     Obj::Pore(_) => true,
@@ -800,6 +807,14 @@ pub fn debug_replay(path: &str) {
             println!("history solve {:?}: obs {:?} residual {:?}", res.is_ok(), o.observable(), o.profile().residual(false).map(|x| x.2));
             if let Some(l) = &o.profile().solver_log {
                 println!("  log residuals: {:?}", l.residual().iter().map(|x| format!("{x:.2e}")).collect::<Vec<_>>());
+            }
+        }
+    }
+    {
+        let rho = o.profile().density.to_reduced();
+        for (k, (r, v)) in rho.iter().zip(o.profile().external_potential.iter()).enumerate() {
+            if !r.is_finite() || *r <= 0.0 {
+                println!("  grid {k}: rho = {r:e}, V_ext = {v}");
             }
         }
     }
